@@ -44,9 +44,15 @@ var c11Frames = map[string]string{
 	"errdot":   `{"error":".","parameters":{"k":"v"}}`,
 	"errlead":  `{"error":".MethodNotFound","parameters":{"method":"M"}}`,
 	"errsvcx":  `{"error":"org.varlink.service.Unknown","parameters":{"x":1}}`,
+	// a complete JSON value with something behind it: not a JSON text
+	"tailbrace":   `{"parameters":{"a":1}}}`,
+	"tailbracket": `null]`,
+	"tailobj":     `{"continues":true}{"error":"x.y.E"}`,
+	"tailword":    `{} x`,
+	"tailcomma":   `{"parameters":{}},`,
 }
 
-var c11Order = []string{"empty", "params", "cont", "err", "mnf", "mnfbad", "null", "array", "number", "string", "contx", "err5", "params5", "errempty", "trunc", "badutf", "zero", "big", "contfalse", "errnop", "errnullp", "mnfnop", "ipnullp", "errnodot", "errdot", "errlead", "errsvcx"}
+var c11Order = []string{"empty", "params", "cont", "err", "mnf", "mnfbad", "null", "array", "number", "string", "contx", "err5", "params5", "errempty", "trunc", "badutf", "zero", "big", "contfalse", "errnop", "errnullp", "mnfnop", "ipnullp", "errnodot", "errdot", "errlead", "errsvcx", "tailbrace", "tailbracket", "tailobj", "tailword", "tailcomma"}
 
 type c11Desc struct {
 	Frames []string `json:"frames,omitempty"`
